@@ -12,6 +12,7 @@ C08 helpers — the state invariant of the linearizer and its preservation by ev
 -/
 import Rooc.Proofs.WFMonad
 import Rooc.Proofs.WFList
+import Rooc.Proofs.WFBounds
 import Rooc.WellFormed
 import Batteries.Tactic.SeqFocus
 
@@ -195,6 +196,75 @@ def StOK (N : String → Prop) (p : α → Bool) (s : St α) : Prop :=
 
 def domNames (s : St α) : List String := s.domain.map (·.name)
 
+/-! ### optional second half of the invariant: proper ranges
+
+`BCfg.track α` switches it on (default: off, so that the structural and finiteness theorems need no order
+axioms on the numbers).  A lower end is PROPER when it satisfies `p` or is `−inf`, an upper end when it satisfies
+`p` or is `+inf`; with `p = isFinite` over `Ext K`: no NaN, no lower end `+inf`, no upper end `−inf`. -/
+
+class BCfg (α : Type) where
+  track : Bool
+  /-- an additional predicate on ranges carried along with properness (e.g. `lower ≤ upper`); default: none -/
+  exB : Bounds α → Prop := fun _ => True
+  /-- … and the corresponding predicate on declared types -/
+  exT : VarType α → Prop := fun _ => True
+
+instance (priority := low) defaultBCfg : BCfg α := { track := false }
+
+def LOK (p : α → Bool) (a : α) : Prop := p a = true ∨ Arith.eq a negInf = true
+def UOK (p : α → Bool) (a : α) : Prop := p a = true ∨ Arith.eq a posInf = true
+/-- a proper range. -/
+def BP (p : α → Bool) (b : Bounds α) : Prop := LOK p b.lower ∧ UOK p b.upper
+/-- a proper variable type (`NonNegativeReal(lo, hi)`: `lo` satisfies `p` and `0 ≤ lo`). -/
+def TP (p : α → Bool) : VarType α → Prop
+  | .bool => True
+  | .int _ _ => True
+  | .real lo hi => LOK p lo ∧ UOK p hi
+  | .nnreal lo hi => p lo = true ∧ Arith.le zero lo = true ∧ UOK p hi
+
+/-- what the arithmetic of `Bounds` has to satisfy for properness to be an invariant. -/
+structure BAx (p : α → Bool) : Prop where
+  unbL : LOK p (negInf : α)
+  unbU : UOK p (posInf : α)
+  negL : ∀ a, LOK p a → UOK p (Arith.neg a)
+  negU : ∀ a, UOK p a → LOK p (Arith.neg a)
+  lsum : ∀ a b, LOK p a → LOK p b → LOK p (Bounds.lowerSum a b)
+  usum : ∀ a b, UOK p a → UOK p b → UOK p (Bounds.upperSum a b)
+  scale : ∀ (b : Bounds α) c, BP p b → p c = true → BP p (b.scale c)
+  divBy : ∀ (b : Bounds α) d, BP p b → p d = true → BP p (b.divBy d)
+  abs : ∀ (b : Bounds α), BP p b → BP p b.abs
+  fminL : ∀ a b, LOK p a → LOK p b → LOK p (Arith.fmin a b)
+  fminU : ∀ a b, UOK p a → UOK p b → UOK p (Arith.fmin a b)
+  fmaxL : ∀ a b, LOK p a → LOK p b → LOK p (Arith.fmax a b)
+  fmaxU : ∀ a b, UOK p a → UOK p b → UOK p (Arith.fmax a b)
+  /-- the upper end of the `$abs_k` auxiliary when the operand may change sign -/
+  absHi : ∀ (b : Bounds α), BP p b → Arith.ge b.lower zero = false → Arith.le b.upper zero = false →
+    UOK p (Arith.fmax (Arith.neg b.lower) b.upper)
+  le00 : Arith.le (zero : α) zero = true
+
+/-- proper and satisfying the additional predicate of the configuration. -/
+def BPx [BCfg α] (p : α → Bool) (b : Bounds α) : Prop := BP p b ∧ BCfg.exB b
+def TPx [BCfg α] (p : α → Bool) (ty : VarType α) : Prop := TP p ty ∧ BCfg.exT ty
+
+/-- what the additional predicate has to satisfy: it holds for the range of a good declared type, it is kept by
+the interval evaluation `boundsOf` (over a bounds map all of whose entries are good), and the three kinds of
+auxiliary type (`Boolean`, `NonNegativeReal(0, max(−lo, hi))`, `Real(lo, hi)`) built from a good range are good. -/
+structure ExAx [BCfg α] (p : α → Bool) : Prop where
+  ofTy : ∀ ty : VarType α, TP p ty → BCfg.exT ty → BCfg.exB (Bounds.ofVarType ty)
+  boundsOf : ∀ bm : BoundsMap α, (∀ x, BPx p (varBounds bm x)) → ∀ e, allLits p e = true → BCfg.exB (boundsOf bm e)
+  bool : BCfg.exT (VarType.bool : VarType α)
+  absT : ∀ b : Bounds α, BP p b → BCfg.exB b → BCfg.exT (.nnreal zero (fmax (Arith.neg b.lower) b.upper))
+  realT : ∀ b : Bounds α, BCfg.exB b → BCfg.exT (.real b.lower b.upper)
+
+def BOK [BCfg α] (p : α → Bool) (s : St α) : Prop :=
+  BCfg.track α = true → (∀ x, BPx p (varBounds s.bounds x)) ∧ (∀ v ∈ s.domain, TPx p v.ty)
+
+/-- the arithmetic axioms are needed only when the tracking is on. -/
+def BTrack [BCfg α] (p : α → Bool) : Prop := BCfg.track α = true → BAx p ∧ ExAx p
+
+/-- the invariant of the linearizer state. -/
+def Inv [BCfg α] (N : String → Prop) (p : α → Bool) (s : St α) : Prop := StOK N p s ∧ BOK p s
+
 structure Rel (N : String → Prop) (p : α → Bool) (s s' : St α) : Prop where
   grow : ∃ added : List (DomVar α), s'.domain = s.domain ++ added ∧ ∀ v ∈ added, v.usage = 1 ∧ isAux v.name
   nodup : (domNames s).Nodup → (domNames s').Nodup
@@ -260,15 +330,59 @@ theorem lookupB_replace_ne (m : BoundsMap α) (n x : String) (b : Bounds α) (h 
       · exact ih
       · rfl
 
+theorem lookupB_append_self (m : BoundsMap α) (n : String) (b : Bounds α)
+    (h : m.any (fun q => q.1 == n) = false) : lookupB (m ++ [(n, b)]) n = some b := by
+  unfold lookupB
+  rw [List.find?_append]
+  have : m.find? (fun q => q.1 == n) = none := by
+    rw [List.find?_eq_none]
+    intro q hq hqn
+    have : m.any (fun q => q.1 == n) = true := List.any_eq_true.mpr ⟨q, hq, hqn⟩
+    rw [h] at this; cases this
+  simp [this]
+
+theorem lookupB_replace_self (m : BoundsMap α) (n : String) (b : Bounds α)
+    (h : m.any (fun q => q.1 == n) = true) :
+    lookupB (m.map fun (q : String × Bounds α) => if q.1 == n then (q.1, b) else (q.1, q.2)) n = some b := by
+  unfold lookupB
+  induction m with
+  | nil => simp at h
+  | cons q qs ih =>
+    obtain ⟨k, v⟩ := q
+    simp only [List.map_cons, List.find?_cons]
+    by_cases hk : (k == n) = true
+    · simp [hk]
+    · have hk' : (k == n) = false := by simpa using hk
+      simp only [hk', if_false, Bool.false_eq_true]
+      apply ih
+      simpa [List.any_cons, hk'] using h
+
 /-! ### the primitive actions -/
 
 section prims
-variable {N : String → Prop} {p : α → Bool}
+variable [BCfg α] {N : String → Prop} {p : α → Bool}
 
-theorem declareVariable_sp {v : String} (hv : isAux v) (ty : VarType α) (s : St α) :
-    SpAt (Rel N p) s (declareVariable v ty) (fun _ => True) := by
+/-- a proper type has proper bounds. -/
+theorem BP_ofVarType (hp : Closed p) {ty : VarType α} (h : TP p ty) : BP p (Bounds.ofVarType ty) := by
+  cases ty with
+  | bool => exact ⟨Or.inl (hp.ofInt 0), Or.inl (hp.ofInt 1)⟩
+  | int lo hi => exact ⟨Or.inl (hp.ofInt lo), Or.inl (hp.ofInt hi)⟩
+  | real lo hi => exact h
+  | nnreal lo hi => exact ⟨Or.inl h.1, h.2.2⟩
+
+/-- a state change that keeps queue, rows, domain and bounds keeps the invariant. -/
+theorem Inv.of_eq {s s' : St α} (hd : s'.domain = s.domain) (hb : s'.bounds = s.bounds)
+    (hq : s'.queue = s.queue) (hr : s'.rows = s.rows) (h : Inv N p s) : Inv N p s' := by
+  refine ⟨?_, ?_⟩
+  · unfold StOK; rw [hq, hr]; exact h.1
+  · intro ht; rw [hd, hb]; exact h.2 ht
+
+theorem declareVariable_sp (hp : Closed p) {v : String} (hv : isAux v) {ty : VarType α}
+    (hty : BCfg.track α = true → TPx p ty ∧ BCfg.exB (Bounds.ofVarType ty)) (s : St α) :
+    SpAt (Rel N p) (Inv N p) s (declareVariable v ty) (fun _ => True) := by
   unfold declareVariable
   apply SpAt.get_bind
+  intro hI
   split
   · exact SpAt.fail (rel_isPre _ _) trivial
   · rename_i hnot
@@ -279,35 +393,64 @@ theorem declareVariable_sp {v : String} (hv : isAux v) (ty : VarType α) (s : St
       obtain ⟨d, hd, hdn⟩ := hx
       simp only [List.any_eq_true, beq_iff_eq]
       exact ⟨d, hd, hdn.trans hxv⟩
-    refine SpAt.set ?_ trivial
-    refine ⟨⟨[_], rfl, ?_⟩, ?_, id, ?_⟩
-    · intro x hx
-      simp only [List.mem_singleton] at hx
-      subst hx
-      exact ⟨rfl, hv⟩
-    · intro hnd
-      simp only [domNames, List.map_append, List.map_cons, List.map_nil]
-      refine List.nodup_append.mpr ⟨hnd, by simp, ?_⟩
-      intro a ha b hb
-      simp only [List.mem_singleton] at hb
-      subst hb
-      exact hfresh a ha
-    · intro x hx
-      dsimp only
-      split
-      · exact lookupB_replace_ne _ _ _ _ (hfresh x hx)
-      · exact lookupB_append_ne _ _ _ _ (hfresh x hx)
+    refine SpAt.set ?_ ?_ trivial
+    · refine ⟨⟨[_], rfl, ?_⟩, ?_, id, ?_⟩
+      · intro x hx
+        simp only [List.mem_singleton] at hx
+        subst hx
+        exact ⟨rfl, hv⟩
+      · intro hnd
+        simp only [domNames, List.map_append, List.map_cons, List.map_nil]
+        refine List.nodup_append.mpr ⟨hnd, by simp, ?_⟩
+        intro a ha b hb
+        simp only [List.mem_singleton] at hb
+        subst hb
+        exact hfresh a ha
+      · intro x hx
+        dsimp only
+        split
+        · exact lookupB_replace_ne _ _ _ _ (hfresh x hx)
+        · exact lookupB_append_ne _ _ _ _ (hfresh x hx)
+    · intro hI'
+      refine ⟨hI'.1, ?_⟩
+      intro ht
+      obtain ⟨hb, hd⟩ := hI'.2 ht
+      refine ⟨?_, ?_⟩
+      · intro x
+        dsimp only
+        by_cases hx : x = v
+        · subst hx
+          unfold varBounds
+          split
+          · rename_i hany
+            rw [lookupB_replace_self _ _ _ hany]
+            exact ⟨BP_ofVarType hp (hty ht).1.1, (hty ht).2⟩
+          · rename_i hany
+            rw [lookupB_append_self _ _ _ (Bool.eq_false_iff.mpr hany)]
+            exact ⟨BP_ofVarType hp (hty ht).1.1, (hty ht).2⟩
+        · unfold varBounds
+          split
+          · rw [lookupB_replace_ne _ _ _ _ hx]; exact hb x
+          · rw [lookupB_append_ne _ _ _ _ hx]; exact hb x
+      · intro d hd'
+        dsimp only at hd'
+        rcases List.mem_append.mp hd' with h | h
+        · exact hd d h
+        · simp only [List.mem_singleton] at h
+          subst h
+          exact (hty ht).1
 
 theorem addConstraint_sp {c : Constraint α} (hc : QOK N p c) (s : St α) :
-    SpAt (Rel N p) s (addConstraint c) (fun _ => True) := by
+    SpAt (Rel N p) (Inv N p) s (addConstraint c) (fun _ => True) := by
   unfold addConstraint
-  refine SpAt.modify (Rel.of_domain_eq rfl rfl ?_) trivial
-  intro hok
-  refine ⟨?_, hok.2⟩
-  intro c' hc'
-  rcases List.mem_cons.mp hc' with rfl | h
-  · exact hc
-  · exact hok.1 _ h
+  have hok : StOK N p s → StOK N p { s with queue := c :: s.queue } := by
+    intro hok
+    refine ⟨?_, hok.2⟩
+    intro c' hc'
+    rcases List.mem_cons.mp hc' with rfl | h
+    · exact hc
+    · exact hok.1 _ h
+  exact SpAt.modify (Rel.of_domain_eq rfl rfl hok) (fun hI => ⟨hok hI.1, hI.2⟩) trivial
 
 theorem mkC_ok (hN : N "") {l r : Exp α} {c : Cmp} (hl : allLits p l = true) (hr : allLits p r = true) :
     QOK N p (mkC l c r) := ⟨hN, hl, hr⟩
@@ -319,11 +462,203 @@ theorem Rel.counter {s s' : St α} (hd : s'.domain = s.domain) (hb : s'.bounds =
 
 end prims
 
+/-! ### `bounds_of` yields proper ranges -/
+
+section boundsOf
+variable {p : α → Bool} (hp : Closed p) (hB : BAx p)
+include hp hB
+
+theorem BP_unbounded : BP p (Bounds.unbounded : Bounds α) := ⟨hB.unbL, hB.unbU⟩
+theorem BP_zeroOne : BP p (⟨Arith.zero, Arith.one⟩ : Bounds α) := ⟨Or.inl (hp.ofInt 0), Or.inl (hp.ofInt 1)⟩
+theorem BP_neg {b : Bounds α} (h : BP p b) : BP p b.neg := ⟨hB.negU _ h.2, hB.negL _ h.1⟩
+theorem BP_add {a b : Bounds α} (ha : BP p a) (hb : BP p b) : BP p (a.add b) :=
+  ⟨hB.lsum _ _ ha.1 hb.1, hB.usum _ _ ha.2 hb.2⟩
+
+theorem BP_foldMin : ∀ (bs : List (Bounds α)) (b : Bounds α), BP p b → (∀ x ∈ bs, BP p x) →
+    BP p (bs.foldl (fun c n => ⟨fmin c.lower n.lower, fmin c.upper n.upper⟩) b)
+  | [], b, hb, _ => hb
+  | x :: xs, b, hb, h =>
+    BP_foldMin xs _ ⟨hB.fminL _ _ hb.1 (h x (by simp)).1, hB.fminU _ _ hb.2 (h x (by simp)).2⟩
+      (fun y hy => h y (by simp [hy]))
+
+theorem BP_foldMax : ∀ (bs : List (Bounds α)) (b : Bounds α), BP p b → (∀ x ∈ bs, BP p x) →
+    BP p (bs.foldl (fun c n => ⟨fmax c.lower n.lower, fmax c.upper n.upper⟩) b)
+  | [], b, hb, _ => hb
+  | x :: xs, b, hb, h =>
+    BP_foldMax xs _ ⟨hB.fmaxL _ _ hb.1 (h x (by simp)).1, hB.fmaxU _ _ hb.2 (h x (by simp)).2⟩
+      (fun y hy => h y (by simp [hy]))
+
+/-- with a proper bounds map, the derived range of an expression whose literals satisfy `p` is proper. -/
+theorem boundsOf_BP (bm : BoundsMap α) (hbm : ∀ x, BP p (varBounds bm x)) (e : Exp α) :
+    allLits p e = true → BP p (boundsOf bm e) := by
+  apply boundsOf.induct bm
+    (motive_1 := fun e => allLits p e = true → BP p (boundsOf bm e))
+    (motive_2 := fun es => allLitsL p es = true → ∀ x ∈ boundsOfList bm es, BP p x)
+  case case1 => intro v h; simp only [allLits] at h; simp only [boundsOf]; exact ⟨Or.inl h, Or.inl h⟩
+  case case2 => intro n _; simp only [boundsOf]; exact hbm n
+  case case3 => intro e ih h; simp only [allLits] at h; simp only [boundsOf]; exact hB.abs _ (ih h)
+  case case4 => intro es hl _ _; simp only [boundsOf, hl]; exact BP_unbounded hp hB
+  case case5 =>
+    intro es b bs hl ih h
+    simp only [allLits] at h
+    simp only [boundsOf, hl]
+    have := ih h
+    rw [hl] at this
+    exact BP_foldMin hp hB bs b (this b (by simp)) (fun x hx => this x (by simp [hx]))
+  case case6 => intro es hl _ _; simp only [boundsOf, hl]; exact BP_unbounded hp hB
+  case case7 =>
+    intro es b bs hl ih h
+    simp only [allLits] at h
+    simp only [boundsOf, hl]
+    have := ih h
+    rw [hl] at this
+    exact BP_foldMax hp hB bs b (this b (by simp)) (fun x hx => this x (by simp [hx]))
+  case case8 => intro es _; simp only [boundsOf]; exact BP_zeroOne hp hB
+  case case9 => intro es _; simp only [boundsOf]; exact BP_zeroOne hp hB
+  case case10 => intro e _; simp only [boundsOf]; exact BP_zeroOne hp hB
+  case case11 => intro a b _; simp only [boundsOf]; exact BP_zeroOne hp hB
+  case case12 => intro a b _; simp only [boundsOf]; exact BP_zeroOne hp hB
+  case case13 => intro a b _; simp only [boundsOf]; exact BP_zeroOne hp hB
+  case case14 =>
+    intro a b iha ihb h
+    simp only [allLits, Bool.and_eq_true] at h
+    simp only [boundsOf]; exact BP_add hp hB (iha h.1) (ihb h.2)
+  case case15 =>
+    intro a b iha ihb h
+    simp only [allLits, Bool.and_eq_true] at h
+    simp only [boundsOf, Bounds.sub]; exact BP_add hp hB (iha h.1) (BP_neg hp hB (ihb h.2))
+  case case16 =>
+    intro v b ih h
+    simp only [allLits, Bool.and_eq_true] at h
+    simp only [boundsOf]; exact hB.scale _ _ (ih h.2) h.1
+  case case17 =>
+    intro a v hna ih h
+    simp only [allLits, Bool.and_eq_true] at h
+    rw [boundsOf]
+    · exact hB.scale _ _ (ih h.1) h.2
+    · exact hna
+  case case18 =>
+    intro a b hna hnb _
+    rw [boundsOf]
+    · exact BP_unbounded hp hB
+    · exact hna
+    · exact hnb
+  case case19 =>
+    intro a v hv ih h
+    simp only [allLits, Bool.and_eq_true] at h
+    simp only [boundsOf, hv, if_true]; exact hB.divBy _ _ (ih h.1) h.2
+  case case20 =>
+    intro a v hv _
+    simp only [boundsOf, hv, if_false, Bool.false_eq_true]; exact BP_unbounded hp hB
+  case case21 =>
+    intro a b hnb _
+    rw [boundsOf]
+    · exact BP_unbounded hp hB
+    · exact hnb
+  case case22 =>
+    intro op a b h1 h2 h3 h4 h5 h6 h7 _
+    rw [boundsOf]
+    · exact BP_zeroOne hp hB
+    all_goals assumption
+  case case23 => intro e ih h; simp only [allLits] at h; simp only [boundsOf]; exact BP_neg hp hB (ih h)
+  case case24 => intro e _; simp only [boundsOf]; exact BP_zeroOne hp hB
+  case case25 => intro _ x hx; simp [boundsOfList] at hx
+  case case26 =>
+    intro e es ih1 ih2 h x hx
+    simp only [allLitsL, Bool.and_eq_true] at h
+    simp only [boundsOfList, List.mem_cons] at hx
+    rcases hx with rfl | hx
+    · exact ih1 h.1
+    · exact ih2 h.2 x hx
+
+theorem boundsOfList_BP (bm : BoundsMap α) (hbm : ∀ x, BP p (varBounds bm x)) :
+    ∀ (es : List (Exp α)), allLitsL p es = true → ∀ x ∈ boundsOfList bm es, BP p x
+  | [], _, x, hx => by simp [boundsOfList] at hx
+  | e :: es, h, x, hx => by
+    simp only [allLitsL, Bool.and_eq_true] at h
+    simp only [boundsOfList, List.mem_cons] at hx
+    rcases hx with rfl | hx
+    · exact boundsOf_BP hp hB bm hbm e h.1
+    · exact boundsOfList_BP bm hbm es h.2 x hx
+
+end boundsOf
+
+/-! ### the types of the auxiliaries are proper -/
+
+section auxTypes
+variable [BCfg α] {N : String → Prop} {p : α → Bool}
+
+theorem tp_bool (hB : BTrack p) : BCfg.track α = true →
+    TPx p (VarType.bool : VarType α) ∧ BCfg.exB (Bounds.ofVarType (VarType.bool : VarType α)) :=
+  fun ht => ⟨⟨trivial, (hB ht).2.bool⟩, (hB ht).2.ofTy _ trivial (hB ht).2.bool⟩
+
+/-- the ranges of the bounds map without the additional predicate. -/
+theorem Inv.bp {s : St α} (hI : Inv N p s) (ht : BCfg.track α = true) : ∀ x, BP p (varBounds s.bounds x) :=
+  fun x => ((hI.2 ht).1 x).1
+
+theorem allLitsL_selectFlagged : ∀ (es : List (Exp α)) (fs : List Bool), allLitsL p es = true →
+    allLitsL p (selectFlagged es fs) = true
+  | [], _, _ => by simp [selectFlagged, allLitsL]
+  | _ :: _, [], _ => by simp [selectFlagged, allLitsL]
+  | e :: es, f :: fs, h => by
+    simp only [allLitsL, Bool.and_eq_true] at h
+    have ih := allLitsL_selectFlagged es fs h.2
+    cases f <;> simp [selectFlagged, allLitsL, h.1, ih]
+
+/-- the type of `$abs_k`. -/
+theorem tp_abs (hp : Closed p) (hB : BTrack p) {s : St α} (hI : Inv N p s) {e : Exp α}
+    (he : allLits p e = true) (h1 : ¬ Arith.ge (boundsOf s.bounds e).lower zero = true)
+    (h2 : ¬ Arith.le (boundsOf s.bounds e).upper zero = true) :
+    BCfg.track α = true →
+      TPx p (.nnreal zero (fmax (Arith.neg (boundsOf s.bounds e).lower) (boundsOf s.bounds e).upper)) ∧
+      BCfg.exB (Bounds.ofVarType
+        (.nnreal zero (fmax (Arith.neg (boundsOf s.bounds e).lower) (boundsOf s.bounds e).upper))) := by
+  intro ht
+  have hb := boundsOf_BP hp (hB ht).1 s.bounds (hI.bp ht) e he
+  have hx := (hB ht).2.boundsOf s.bounds (hI.2 ht).1 e he
+  have htp : TP p (.nnreal zero (fmax (Arith.neg (boundsOf s.bounds e).lower) (boundsOf s.bounds e).upper)) :=
+    ⟨hp.ofInt 0, (hB ht).1.le00, (hB ht).1.absHi _ hb (by simpa using h1) (by simpa using h2)⟩
+  have hxt := (hB ht).2.absT _ hb hx
+  exact ⟨⟨htp, hxt⟩, (hB ht).2.ofTy _ htp hxt⟩
+
+/-- the type of `$min_k`. -/
+theorem tp_min (hp : Closed p) (hB : BTrack p) {s : St α} (hI : Inv N p s) {es : List (Exp α)}
+    (he : allLitsL p es = true) (fs : List Bool) :
+    BCfg.track α = true →
+      TPx p (.real (boundsOf s.bounds (.min (selectFlagged es fs))).lower
+        (boundsOf s.bounds (.min (selectFlagged es fs))).upper) ∧
+      BCfg.exB (Bounds.ofVarType (.real (boundsOf s.bounds (.min (selectFlagged es fs))).lower
+        (boundsOf s.bounds (.min (selectFlagged es fs))).upper)) := by
+  intro ht
+  have hl : allLits p (.min (selectFlagged es fs)) = true := by
+    simp only [allLits]; exact allLitsL_selectFlagged es fs he
+  have htp := boundsOf_BP hp (hB ht).1 s.bounds (hI.bp ht) _ hl
+  have hxt := (hB ht).2.realT _ ((hB ht).2.boundsOf s.bounds (hI.2 ht).1 _ hl)
+  exact ⟨⟨htp, hxt⟩, (hB ht).2.ofTy _ htp hxt⟩
+
+/-- the type of `$max_k`. -/
+theorem tp_max (hp : Closed p) (hB : BTrack p) {s : St α} (hI : Inv N p s) {es : List (Exp α)}
+    (he : allLitsL p es = true) (fs : List Bool) :
+    BCfg.track α = true →
+      TPx p (.real (boundsOf s.bounds (.max (selectFlagged es fs))).lower
+        (boundsOf s.bounds (.max (selectFlagged es fs))).upper) ∧
+      BCfg.exB (Bounds.ofVarType (.real (boundsOf s.bounds (.max (selectFlagged es fs))).lower
+        (boundsOf s.bounds (.max (selectFlagged es fs))).upper)) := by
+  intro ht
+  have hl : allLits p (.max (selectFlagged es fs)) = true := by
+    simp only [allLits]; exact allLitsL_selectFlagged es fs he
+  have htp := boundsOf_BP hp (hB ht).1 s.bounds (hI.bp ht) _ hl
+  have hxt := (hB ht).2.realT _ ((hB ht).2.boundsOf s.bounds (hI.2 ht).1 _ hl)
+  exact ⟨⟨htp, hxt⟩, (hB ht).2.ofTy _ htp hxt⟩
+
+end auxTypes
+
 /-! ### `reify_logic_variable` -/
 
-theorem reify_sp {N : String → Prop} {p : α → Bool} (hN : N "") (hp : Closed p) {v : String} (hv : isAux v)
+theorem reify_sp [BCfg α] {N : String → Prop} {p : α → Bool} (hN : N "") (hp : Closed p) (hB : BTrack p)
+    {v : String} (hv : isAux v)
     {cs : List (Cmp × Exp α)} (hcs : ∀ q ∈ cs, allLits p q.2 = true) (s : St α) :
-    SpAt (Rel N p) s (reify v cs) (CtxOK p) := by
+    SpAt (Rel N p) (Inv N p) s (reify v cs) (CtxOK p) := by
   unfold reify
   refine SpAt.bind (rel_isPre _ _) (SpAt.forIn (rel_isPre _ _) _ _ _ ?_ s) ?_
   · intro q hq b s1
@@ -333,7 +668,7 @@ theorem reify_sp {N : String → Prop} {p : α → Bool} (hN : N "") (hp : Close
     intro _ _ s2
     exact SpAt.pure (rel_isPre _ _) trivial
   · intro _ _ s1
-    refine SpAt.bind (rel_isPre _ _) (declareVariable_sp hv _ s1) ?_
+    refine SpAt.bind (rel_isPre _ _) (declareVariable_sp (ty := .bool) hp hv (tp_bool hB) s1) ?_
     intro _ _ s2
     exact SpAt.pure (rel_isPre _ _) (CtxOK.fromVar hp _ (hp.ofInt 1))
 
@@ -439,10 +774,19 @@ macro_rules
 /-- a call whose spec is known. -/
 macro "sp_call" : tactic => `(tactic| first
     | apply_sp_hyp
-    | (apply declareVariable_sp)
+    | (apply declareVariable_sp (by assumption))
     | (apply addConstraint_sp; apply mkC_ok (by assumption))
-    | (apply reify_sp (by assumption) (by assumption))
+    | (apply reify_sp (by assumption) (by assumption) (by assumption))
     | (refine SpAt.forIn (rel_isPre _ _) _ _ _ ?_ _; intro _ _ _ _))
+
+/-- a goal that is not a program: auxiliary name, literal / context side condition, or properness of a type. -/
+macro "sp_leaf" : tactic => `(tactic| first
+    | sp_aux
+    | sp_side
+    | exact tp_bool (by assumption)
+    | exact tp_abs (by assumption) (by assumption) (by assumption) (by assumption) (by assumption) (by assumption)
+    | exact tp_min (by assumption) (by assumption) (by assumption) (by assumption) _
+    | exact tp_max (by assumption) (by assumption) (by assumption) (by assumption) _)
 
 open Lean Elab Tactic Meta in
 /-- apply the rule for the head construct of the program (or try to close a side condition). -/
@@ -456,12 +800,12 @@ elab "sp_step" : tactic => do
     | "match" => `(tactic| split)
     | "let" => `(tactic| dsimp only)
     | "beta" => `(tactic| dsimp only)
-    | "get" => `(tactic| (apply SpAt.get_bind))
-    | "set" => `(tactic| (refine SpAt.set_bind (rel_isPre _ _) (Rel.counter rfl rfl rfl rfl) ?_))
-    | "set1" => `(tactic| (refine SpAt.set (Rel.counter rfl rfl rfl rfl) trivial))
+    | "get" => `(tactic| (apply SpAt.get_bind; intro _))
+    | "set" => `(tactic| (refine SpAt.set_bind (rel_isPre _ _) (Rel.counter rfl rfl rfl rfl) (Inv.of_eq rfl rfl rfl rfl) ?_))
+    | "set1" => `(tactic| (refine SpAt.set (Rel.counter rfl rfl rfl rfl) (Inv.of_eq rfl rfl rfl rfl) trivial))
     | "bind" => `(tactic| (apply SpAt.bind (rel_isPre _ _); rotate_left; intro _ _ _; rotate_right; sp_call))
     | "call" => `(tactic| sp_call)
-    | _ => `(tactic| first | sp_aux | sp_side)
+    | _ => `(tactic| sp_leaf)
   evalTactic (← `(tactic| first | contradiction | exact absurd trivial (by assumption) | ($tac:tactic)))
 
 macro "sp_go" : tactic => `(tactic| repeat' sp_step)
